@@ -1,6 +1,6 @@
-from . import evaluate, numeric, structure, reduce
+from . import evaluate, numeric, structure, reduce, symbolic
 
-MODULES = [evaluate, numeric, structure, reduce]
+MODULES = [evaluate, numeric, structure, reduce, symbolic]
 
 
 def all_specs(prog, tier):
